@@ -6,38 +6,140 @@ import (
 	"tsim/kernel"
 )
 
+type weights map[string]int
+
+func baseWeights() weights {
+	return weights{"send": 18, "block": 28, "relay": 26, "dup": 5, "replay": 4, "corrupt": 5, "advance": 4, "drop": 1, "partition": 1,
+		"stall": 1, "skew": 1, "crash": 2, "adv": 2, "advmsg": 1, "gov": 2, "export": 1, "pump": 6}
+}
+
+func focusWeights(focus string) weights {
+	w := baseWeights()
+	switch focus {
+	case "C01":
+		w["dup"], w["replay"], w["corrupt"], w["crash"] = 12, 10, 8, 3
+	case "C02":
+		w["corrupt"], w["dup"], w["replay"] = 16, 6, 6
+	case "C03":
+		w["send"], w["gov"], w["crash"], w["pump"] = 24, 4, 3, 10
+	case "C04":
+		w["send"], w["crash"], w["relay"] = 34, 3, 14
+	case "C05":
+		w["dup"], w["replay"], w["corrupt"], w["pump"] = 12, 10, 8, 10
+	case "C06":
+		w["adv"], w["advmsg"], w["gov"], w["corrupt"] = 14, 6, 8, 6
+	case "C13":
+		w["export"] = 6
+	case "C14":
+		w["crash"] = 6
+	}
+	return w
+}
+
 // Generate draws a swarm configuration and a plan.
 func (Scenario) Generate(rng *rand.Rand, focus, tier string) kernel.Plan {
 	cfg := map[string]int64{
-		"keyseed":  rng.Int63(),
-		"chains":   2 + kernel.B2I(kernel.Chance(rng, 0.3)),
-		"relayers": 1 + rng.Int63n(3),
-		"users":    2 + rng.Int63n(2),
-		"vals":     rng.Int63n(3),
-		"rev_off":  rng.Int63n(5),
+		"keyseed":     rng.Int63(),
+		"chains":      2 + kernel.B2I(kernel.Chance(rng, 0.3)),
+		"relayers":    1 + rng.Int63n(3),
+		"users":       2 + rng.Int63n(2),
+		"vals":        rng.Int63n(3),
+		"rev_off":     rng.Int63n(5),
+		"weird_names": kernel.B2I(focus == "C19" || kernel.Chance(rng, 0.25)),
+		"name_off":    rng.Int63n(12),
+		"delay_s":     kernel.B2I(kernel.Chance(rng, 0.2)) * (1 + rng.Int63n(20)),
 	}
-	n := 30 + rng.Intn(60)
-	var ops []kernel.Op
-	add := func(k string, a ...int64) { ops = append(ops, kernel.Op{K: k, A: a}) }
-	nc := cfg["chains"]
-	for i := 0; i < n; i++ {
-		switch x := rng.Intn(100); {
-		case x < 20:
-			add("send", rng.Int63n(nc), rng.Int63n(4), rng.Int63n(3), rng.Int63n(8), rng.Int63n(5), rng.Int63n(7), rng.Int63n(4)*rng.Int63n(2), rng.Int63n(6))
-		case x < 50:
-			add("block", rng.Int63n(nc), 1+rng.Int63n(5), rng.Int63(), rng.Int63n(2))
-		case x < 80:
-			add("relay", rng.Int63n(cfg["relayers"]), rng.Int63n(8), rng.Int63n(3)*rng.Int63n(2), 0)
-		case x < 88:
-			add("dup", rng.Int63n(cfg["relayers"]), rng.Int63n(16), rng.Int63n(3), 0)
-		case x < 94:
-			add("replay", rng.Int63n(cfg["relayers"]), rng.Int63n(32), rng.Int63n(2), rng.Int63n(3))
-		default:
-			add("advance", 1+rng.Int63n(30))
+	w := focusWeights(focus)
+	// swarm: each fault kind is enabled in about half of the runs
+	for _, k := range []string{"dup", "replay", "corrupt", "drop", "partition", "stall", "skew", "crash", "adv", "advmsg", "gov", "export"} {
+		if !kernel.Chance(rng, 0.55) {
+			// never disable the fault family the focused property is about
+			if fw := focusWeights(focus)[k]; fw > baseWeights()[k] {
+				continue
+			}
+			w[k] = 0
 		}
 	}
-	if kernel.Chance(rng, 0.7) {
-		add("settle", 12)
+	var keys []string
+	total := 0
+	for _, k := range []string{"send", "block", "relay", "dup", "replay", "corrupt", "advance", "drop", "partition", "stall", "skew", "crash", "adv", "advmsg", "gov", "export", "pump"} {
+		keys = append(keys, k)
+		total += w[k]
+	}
+	n := 30 + rng.Intn(70)
+	if tier == "thorough" && kernel.Chance(rng, 0.3) {
+		n += rng.Intn(120)
+	}
+	var ops []kernel.Op
+	add := func(k string, a ...int64) { ops = append(ops, kernel.Op{K: k, A: a}) }
+	nc, nr := cfg["chains"], cfg["relayers"]
+	invalidDst := func() int64 {
+		if focus == "C04" && kernel.Chance(rng, 0.25) || kernel.Chance(rng, 0.04) {
+			return -1 - rng.Int63n(3)
+		}
+		return rng.Int63n(3)
+	}
+	for i := 0; i < n; i++ {
+		x := rng.Intn(total)
+		var k string
+		for _, kk := range keys {
+			if x < w[kk] {
+				k = kk
+				break
+			}
+			x -= w[kk]
+		}
+		switch k {
+		case "send":
+			add("send", rng.Int63n(nc), rng.Int63n(4), invalidDst(), rng.Int63n(16), rng.Int63n(7), rng.Int63n(7), rng.Int63n(4)*rng.Int63n(2), rng.Int63n(6))
+		case "block":
+			add("block", rng.Int63n(nc), 1+rng.Int63n(6), rng.Int63(), rng.Int63n(2))
+		case "relay":
+			add("relay", rng.Int63n(nr), rng.Int63n(8), rng.Int63n(3)*rng.Int63n(2), kernel.B2I(kernel.Chance(rng, 0.05)))
+		case "pump":
+			// honest relayer burst: relay everything pending, then a block on every chain
+			add("pump", rng.Int63n(nr))
+		case "dup":
+			add("dup", rng.Int63n(nr), rng.Int63n(16), rng.Int63n(3), 0)
+		case "replay":
+			add("replay", rng.Int63n(nr), rng.Int63n(64), rng.Int63n(2), rng.Int63n(3))
+		case "corrupt":
+			ops = append(ops, kernel.Op{K: "corrupt", S: corruptKinds[rng.Intn(len(corruptKinds))], A: []int64{rng.Int63n(1 << 20)}})
+			if kernel.Chance(rng, 0.7) {
+				if kernel.Chance(rng, 0.5) {
+					add("relay", rng.Int63n(nr), rng.Int63n(8), 0, 0)
+				} else {
+					add("dup", rng.Int63n(nr), rng.Int63n(16), 0, 0)
+				}
+			}
+		case "advance":
+			if kernel.Chance(rng, 0.1) {
+				add("advance", 3600*(1+rng.Int63n(72)))
+			} else {
+				add("advance", 1+rng.Int63n(30))
+			}
+		case "drop":
+			add("drop", rng.Int63n(nr), rng.Int63n(8))
+		case "partition":
+			add("partition", rng.Int63n(nr), rng.Int63n(nc), 5+rng.Int63n(60))
+		case "stall":
+			add("stall", rng.Int63n(nc), 5+rng.Int63n(60))
+		case "skew":
+			add("skew", rng.Int63n(nc), rng.Int63n(17)-8)
+		case "crash":
+			add("crash", rng.Int63n(nc), rng.Int63n(4), rng.Int63n(8))
+		case "adv":
+			add("adv", rng.Int63n(nc), rng.Int63n(12), rng.Int63n(3), rng.Int63n(5))
+		case "advmsg":
+			add("advmsg", rng.Int63n(16))
+		case "gov":
+			add("gov", rng.Int63n(nc), rng.Int63n(4), rng.Int63n(4), rng.Int63n(4))
+		case "export":
+			add("export", rng.Int63n(nc))
+		}
+	}
+	if kernel.Chance(rng, 0.6) {
+		add("settle", 14)
 	}
 	return kernel.Plan{Cfg: cfg, Ops: ops}
 }
